@@ -201,6 +201,34 @@ def search(ctx):
                 ctx.counterexample("equiv:" + sig, "equivalence reports True for programs that differ by '%s' and give different states" % kind, data)
 
 
+_search_random = search
+
+
+def search(ctx):
+    """Random pairs, plus a sweep over two-mode gates at the parameter values the equivalence test treats specially:
+    the same program with the gate's modes reversed must not be reported equivalent unless the states agree."""
+    _search_random(ctx)
+    rng = ctx.rng
+    specials = [["BSgate", p_] for p_ in SPECIAL_BS] + [["CXgate", [0.0]], ["CXgate", [0.4]], ["MZgate", [0.3, 0.2]], ["S2gate", [0.3, 0.1]], ["CZgate", [0.3]]]
+    for name, params in specials:
+        for rep in range(ctx.budget(2, 8)):
+            n = rng.randint(2, 3)
+            a, b = rng.sample(range(n), 2)
+            pre = [sfgen.random_cmd(rng, n, list(sfgen.GAUSSIAN_GATES)) for _ in range(rng.randint(1, 3))]
+            post = [sfgen.random_cmd(rng, n, list(sfgen.GAUSSIAN_GATES)) for _ in range(rng.randint(0, 2))]
+            p = {"n": n, "cmds": pre + [[name, list(params), [a, b], False]] + post}
+            q = {"n": n, "cmds": pre + [[name, list(params), [b, a], False]] + post}
+            data = {"check": "equiv", "kind": "modes", "p": p, "q": q}
+            try:
+                e1 = bool(sfgen.build_program(p).equivalence(sfgen.build_program(q)))
+            except Exception as e:
+                ctx.counterexample("equiv:raises:" + type(e).__name__, "equivalence raised %r" % e, data)
+                continue
+            ctx.case({"sweep": name, "params": params, "equiv": e1}, nontrivial=True, bucket="sweep-" + name)
+            if e1 and same_state(p, q) is False:
+                ctx.counterexample("equiv:modes-order", "equivalence reports True although %s%s acts on reversed modes and the states differ" % (name, params), data)
+
+
 def replay(ctx, data):
     d = data["data"]
     p, q = d["p"], d["q"]
